@@ -20,7 +20,7 @@ import (
 const c10LPattern = "zpzzpzpzzpzpzzzpzzpzzpzzzpzzpz"
 
 // c10LHistory builds the common history; returns the scen positioned before the block of index stop.
-func c10LHistory(stop int) (*scen, common.Address, error) {
+func c10LHistory(stop, variant int) (*scen, common.Address, error) {
 	u := c13Universe()
 	s, err := newScen(3, true, nil)
 	if err != nil {
@@ -29,7 +29,7 @@ func c10LHistory(stop int) (*scen, common.Address, error) {
 	pre := core.VLockupPrecompile()
 	var X common.Address
 	for i := 0; i < stop; i++ {
-		o := c10LOpts(i, X, u)
+		o := c10LOpts(i, variant, X, u)
 		if i == 2 {
 			n := s.nonce(s.k[1])
 			code, addr := c13ForwarderInit(pre, s.k[1].Addr, n)
@@ -46,7 +46,9 @@ func c10LHistory(stop int) (*scen, common.Address, error) {
 	return s, X, nil
 }
 
-func c10LOpts(i int, X common.Address, u *c13Uni) core.VBuildOpts {
+// variant 1: the miner names a delegate in the coinbase data and changes it from block to block
+// (none, m[1], m[2], none, ...), so that rewards accumulate into records whose delegate changes.
+func c10LOpts(i, variant int, X common.Address, u *c13Uni) core.VBuildOpts {
 	o := core.VBuildOpts{Fill: true, Order: 2}
 	if c10LPattern[i] == 'p' {
 		o.Order = 0
@@ -55,6 +57,9 @@ func c10LOpts(i int, X common.Address, u *c13Uni) core.VBuildOpts {
 	o.Coinbase = &cb
 	if i >= 3 {
 		o.CoinbaseData = append([]byte{0}, X.Bytes()...)
+		if variant == 1 && i%3 != 0 {
+			o.CoinbaseData = append(o.CoinbaseData, u.m[i%3].Addr.Bytes()...)
+		}
 	}
 	return o
 }
@@ -62,7 +67,7 @@ func c10LOpts(i int, X common.Address, u *c13Uni) core.VBuildOpts {
 func c10LContractCoinbases(b *types.WorkObject, X common.Address) int {
 	n := 0
 	for _, t := range b.Transactions() {
-		if t.Type() == types.ExternalTxType && types.IsCoinBaseTx(t) && len(t.Data()) == 1+common.AddressLength+common.HashLength {
+		if t.Type() == types.ExternalTxType && types.IsCoinBaseTx(t) && (len(t.Data()) == 1+common.AddressLength+common.HashLength || len(t.Data()) == 1+2*common.AddressLength+common.HashLength) {
 			if common.BytesToAddress(t.Data()[1:21], core.VZoneLoc).Equal(X) {
 				n++
 			}
@@ -71,15 +76,15 @@ func c10LContractCoinbases(b *types.WorkObject, X common.Address) int {
 	return n
 }
 
-func c10LRun(idx int) (string, string, string) {
+func c10LRun(idx, variant int) (string, string, string) {
 	u := c13Universe()
-	s, X, err := c10LHistory(idx)
+	s, X, err := c10LHistory(idx, variant)
 	if err != nil {
 		return "harness", err.Error(), ""
 	}
 	defer s.close()
 	common_ := append([]*types.WorkObject{}, s.blocks...)
-	o := c10LOpts(idx, X, u)
+	o := c10LOpts(idx, variant, X, u)
 	o.Salt = 5
 	a, err := s.n.Build(o)
 	if err != nil {
@@ -97,7 +102,7 @@ func c10LRun(idx int) (string, string, string) {
 		return "", "", "n/a"
 	}
 	lockupsBefore, _ := core.VScanLockups(s.n.DB[2], core.VZoneLoc)
-	cls := fmt.Sprintf("records-before=%d,contract-coinbases-in-block=%d,order=%d", len(lockupsBefore), nA, o.Order)
+	cls := fmt.Sprintf("records-before=%d,contract-coinbases-in-block=%d,order=%d,delegates=%s", len(lockupsBefore), nA, o.Order, []string{"none", "changing"}[variant])
 	mk := func(blocks ...*types.WorkObject) (*scen, error) {
 		r, err := newScen(3, true, nil)
 		if err != nil {
@@ -160,10 +165,12 @@ func c10Lockups(c *vx.Ctx) {
 	core.VScaleLockBytes()
 	p.Bound("pattern", c10LPattern)
 	if c.Shard == 0 {
-		p.States = int64(len(c10LPattern) - 4)
+		p.States = 2 * int64(len(c10LPattern)-4)
 	}
-	for idx := 4; idx < len(c10LPattern); idx++ {
-		if !c.Mine(int64(idx)) {
+	p.Bound("delegate_variants", "none; changing from block to block (none, m1, m2)")
+	for job := 8; job < 2*len(c10LPattern); job++ {
+		idx, variant := job/2, job%2
+		if !c.Mine(int64(job)) {
 			continue
 		}
 		if c.Expired() {
@@ -171,7 +178,7 @@ func c10Lockups(c *vx.Ctx) {
 			return
 		}
 		var key, desc, cls string
-		if perr := vx.Guard(func() { key, desc, cls = c10LRun(idx) }); perr != "" {
+		if perr := vx.Guard(func() { key, desc, cls = c10LRun(idx, variant) }); perr != "" {
 			key, desc = "panic:"+vx.PanicSite(perr), perr
 		}
 		if key == "harness" {
@@ -182,17 +189,18 @@ func c10Lockups(c *vx.Ctx) {
 		p.Traces += 3
 		if key != "" {
 			p.Outcome("DIVERGED:" + cls)
-			idx := idx
+			idx, variant := idx, variant
 			if c.Confirm(desc, func() string {
 				var k string
-				vx.Guard(func() { k, _, _ = c10LRun(idx) })
+				vx.Guard(func() { k, _, _ = c10LRun(idx, variant) })
 				return k
 			}) {
-				c.Violate("lockups", "lockups:"+key, desc, map[string]int{"block_index": idx})
+				c.Violate("lockups", "lockups:"+key, desc, map[string]int{"block_index": idx, "delegates": variant})
 			}
 			continue
 		}
 		p.Outcome(cls)
 		p.Sample(map[string]any{"fork_at_block_index": idx, "class": cls})
+		_ = variant
 	}
 }
